@@ -426,3 +426,40 @@ MUTANTS = [
     {"id": "C12-position-literal-swapped", "prop": "C12", "expect": "sample-source",
      "edits": [(I, "qimg.get(Position::new(row + i, col))", "qimg.get(Position { row: col, col: row + i })")]},
 ]
+
+
+# ---- exact shortcut for single-colour columns, pre-sized buffer from the palette length (robustness round 3) ----
+_FILL = "                        *s = *index;\n                    }\n                }\n"
+_FAST = lambda guard, key, code, tail: (_FILL + "                if " + guard + " {\n                    sixel_lines\n                        .entry(" + key + ")\n"
+                                        "                        .or_default()\n                        .push((col, " + code + "));\n" + tail + "                }\n")
+_CONT = "                    continue;\n"
+_ALL = "sixel.iter().all(|s_color| *s_color == sixel[0])"
+_NEWBUF = "        let mut sixel_image = Vec::new();\n"
+MUTANTS += [
+    {"id": "C12-benign-uniform-column-shortcut", "prop": "C12", "benign": True,
+     "edits": [(I, _FILL, _FAST(_ALL, "sixel[0]", "0b111111 + 63", _CONT)),
+               (I, _NEWBUF, "        let mut sixel_image = Vec::with_capacity(32 + palette.colors().len() * 20);\n")]},
+    {"id": "C12-benign-uniform-column-shortcut-not-any", "prop": "C12", "benign": True,
+     "edits": [(I, _FILL, _FAST("!sixel.iter().any(|s_color| *s_color != sixel[5])", "sixel[5]", "126", _CONT))]},
+    {"id": "C12-benign-uniform-column-shortcut-range-chain", "prop": "C12", "benign": True,
+     "edits": [(I, _FILL, _FAST("(0..6).all(|i| sixel[i] == sixel[0])", "sixel[3]", "((1u8 << 6) - 1) + 63", _CONT))]},
+    {"id": "C12-uniform-shortcut-falls-through", "prop": "C12", "expect": "run-list-push",
+     "edits": [(I, _FILL, _FAST(_ALL, "sixel[0]", "0b111111 + 63", ""))]},
+    {"id": "C12-uniform-shortcut-wrong-code", "prop": "C12", "expect": "run-list-push",
+     "edits": [(I, _FILL, _FAST(_ALL, "sixel[0]", "0b11111 + 63", _CONT))]},
+    {"id": "C12-uniform-shortcut-guard-any-equal", "prop": "C12", "expect": "run-list-push",
+     "edits": [(I, _FILL, _FAST("sixel.iter().any(|s_color| *s_color == sixel[0])", "sixel[0]", "0b111111 + 63", _CONT))]},
+    {"id": "C12-uniform-shortcut-guard-partial", "prop": "C12", "expect": "run-list-push",
+     "edits": [(I, _FILL, _FAST("sixel.iter().take(3).all(|s_color| *s_color == sixel[0])", "sixel[0]", "0b111111 + 63", _CONT))]},
+    {"id": "C12-uniform-shortcut-wrong-column", "prop": "C12", "expect": "run-list-push",
+     "edits": [(I, _FILL, _FAST(_ALL, "sixel[0]", "0b111111 + 63", _CONT).replace("push((col,", "push((col + 1,"))]},
+    {"id": "C12-capacity-from-palette-overflows", "prop": "C12", "expect": "TOTAL",
+     "edits": [(I, _NEWBUF, "        let mut sixel_image = Vec::with_capacity(32 + palette.colors().len() * (usize::MAX / 16));\n")]},
+]
+
+MUTANTS += [
+    {"id": "C12-benign-capacity-from-dimensions-and-palette-size", "prop": "C12", "benign": True,
+     "edits": [(I, _NEWBUF, "        let mut sixel_image = Vec::with_capacity(qimg.width() * (qimg.height() / 6) + palette.size() * 16 + 32);\n")]},
+    {"id": "C12-capacity-from-dimensions-cubed", "prop": "C12", "expect": "TOTAL",
+     "edits": [(I, _NEWBUF, "        let mut sixel_image = Vec::with_capacity(qimg.width() * qimg.height() * qimg.width() * 8);\n")]},
+]
